@@ -161,10 +161,11 @@ package generator
 //@   requires nonempty: len(s) >= 1
 //@   assigns nothing
 
+// upperFirst is reached with arbitrary keys of a default object
+// (dumpDefaultValue), so it must be total: no precondition.
 //@ func upperFirst
 //@   props C18 C11
 //@   option pure
-//@   requires nonempty: len(s) >= 1
 //@   assigns nothing
 
 //@ func (*anyOfValidator).generate
@@ -341,3 +342,10 @@ package generator
 //@   ensures [C02,C09] required-or-default-keeps-type: result == nil && (requiredNames[name] == true || the_prop(t, name).Default != nil) ==> last(structType.Fields).Type == call_result("(*schemaGenerator).generateTypeInline", 0)
 //@   ensures [C14] name-recorded: result == nil ==> map_has(uniqueNames, final_base(g, t, name))
 //@   ensures [C14,C16] tags: result == nil ==> last(structType.Fields).Tags == expected_tags(g.config.Tags, name, requiredNames[name] == true)
+
+// ---- deliberate error drops (C18 error-propagation obligations) --------------
+//@ func (*Generator).Sources
+//@   errdrop WriteString: strings.Builder writes never fail
+//@   errdrop format.Source: falling back to the unformatted text (with a warning) is the documented behaviour; whether that text compiles is C01's concern
+//@ func (*defaultValidator).dumpDefaultValue@drops
+//@   errdrop tryDumpDefaultSlice: the error only selects the fallback rendering through litter.Sdump
